@@ -15,7 +15,7 @@ FAULT_KINDS = ('open-fail', 'read-fail', 'write-torn', 'close-fail',
 
 # families that contain coupled systems, ligands with coupled groups, ions:
 # the places where order- and state-dependent code paths actually run
-HOT_FAMILIES = ('hpx_asp25', 'ftj_glu', 'ftj_sys3', 'dfr_mtxa', 'dfr_mtxb', 'dfr_mtxs',
+HOT_FAMILIES = ('hpx_asp25', 'ftj_glu', 'ftj_sys3', 'hpx_triad', 'dfr_mtxa', 'dfr_mtxb', 'dfr_mtxs',
                 'dfr_s00', 'dfr_s05', 'hpx_asp25s', 'sgb_nti', 'ftj_zn', 'hpx_kni')
 BIG_OK = ('ftj_sys3',)
 # families whose base structure has a non-covalently coupled pair
